@@ -100,7 +100,7 @@ def build(reg):
           requires={"one_marginal_per_dimension": "len(joint_degree) <= len(self._arr_fp)"},
           ensures={"product_of_the_marginals": "result == pprod(self._arr_fp, joint_degree, len(joint_degree))", "unchanged": "self == old(self)"},
           loops={0: dict(inv={"prod": "prod == pprod(self._arr_fp, joint_degree, IT)", "frame": "self == old(self)"})})
-    mg.fn("JointDegreeMarginal.generate_all_joint_degrees", ret=LJ, pure=True,
+    mg.fn("JointDegreeMarginal.generate_all_joint_degrees", ret=LJ, pure=True, exports={"ks": LL},
           ensures={"ranges_start_at_kmin_and_stay_inside_the_bounds": "len(ks) == len(self._low_high_degree_bounds) and forall(i, 0, len(ks), (len(ks[i]) == (self._low_high_degree_bounds[i][1] - self._low_high_degree_bounds[i][0] "
                                        "if self._low_high_degree_bounds[i][1] > self._low_high_degree_bounds[i][0] else 0) or len(ks[i]) == (self._low_high_degree_bounds[i][1] + 1 - self._low_high_degree_bounds[i][0] "
                                        "if self._low_high_degree_bounds[i][1] + 1 > self._low_high_degree_bounds[i][0] else 0)) and forall(p, 0, len(ks[i]), ks[i][p] == self._low_high_degree_bounds[i][0] + p))",
@@ -110,6 +110,33 @@ def build(reg):
                               "rows": "forall(i, 0, IT, (len(ks[i]) == (self._low_high_degree_bounds[i][1] - self._low_high_degree_bounds[i][0] if self._low_high_degree_bounds[i][1] > self._low_high_degree_bounds[i][0] else 0) "
                                       "or len(ks[i]) == (self._low_high_degree_bounds[i][1] + 1 - self._low_high_degree_bounds[i][0] if self._low_high_degree_bounds[i][1] + 1 > self._low_high_degree_bounds[i][0] else 0)) "
                                       "and forall(p, 0, len(ks[i]), ks[i][p] == self._low_high_degree_bounds[i][0] + p))"})})
+    # ---- marginal, direct mode: the table is built over every generated joint degree, filled with the product of the marginals and normalised
+    def dict_of_generator(ex, node, st, pc):
+        if is_call(node, "dict", 1) and isinstance(node.args[0], ast.GeneratorExp) and ast.unparse(node.args[0].elt).replace(" ", "") == "(key,0.0)" and len(node.args[0].generators) == 1 \
+                and ast.unparse(node.args[0].generators[0].target) == "key" and not node.args[0].generators[0].ifs:
+            L = ex.expr(node.args[0].generators[0].iter, st, pc)
+            if L.t != LJ: return None
+            q_ = fresh_int("dq"); ex.oblige(f"requires@call.dict.hashable_keys@{node.lineno}", "requires@call", pc, z3.ForAll([q_], z3.Implies(z3.And(0 <= q_, q_ < LJ.len(L.z)), JD.kind(LJ.at(L.z, q_)))), node)
+            d = fresh(JDD, "zero_table"); key = z3.Const(f"key!{uid()}", JD.sort()); w = fresh_int("dw")
+            pc.append(z3.ForAll([key], z3.And(z3.Select(JDD.dom(d.z), key) == z3.Exists([w], z3.And(0 <= w, w < LJ.len(L.z), LJ.at(L.z, w) == key)), z3.Select(JDD.val(d.z), key) == 0), patterns=[z3.Select(JDD.dom(d.z), key)]))
+            pc.append(z3.ForAll([q_], z3.Implies(z3.And(0 <= q_, q_ < LJ.len(L.z)), z3.Select(JDD.dom(d.z), LJ.at(L.z, q_))), patterns=[LJ.at(L.z, q_)]))
+            st.env["GEN"] = L; ex.assumptions.add("dict((key, 0.0) for key in xs): one entry 0.0 per distinct element of xs (TypeError for unhashable elements)"); return d
+        return None
+    reg.call_hooks.append(dict_of_generator)
+    KS_ = "ks_of_generate_all_joint_degrees"; B0 = "self._low_high_degree_bounds"
+    mg.fn("JointDegreeMarginal.create_jdd_directly",
+          requires={"one_marginal_per_dimension": f"len({B0}) <= len(self._arr_fp)"},
+          ensures={"ranges_start_at_kmin_and_stay_inside_the_bounds": f"len({KS_}) == len({B0}) and forall(i, 0, len({KS_}), (len({KS_}[i]) == ({B0}[i][1] - {B0}[i][0] if {B0}[i][1] > {B0}[i][0] else 0) or "
+                                                                   f"len({KS_}[i]) == ({B0}[i][1] + 1 - {B0}[i][0] if {B0}[i][1] + 1 > {B0}[i][0] else 0)) and forall(p, 0, len({KS_}[i]), {KS_}[i][p] == {B0}[i][0] + p))",
+                   "support_is_the_product_of_those_ranges": f"forall_elem(key, JD, (key in self._jdd) == in_product({KS_}, key))",
+                   "value_is_the_product_of_the_marginals_divided_by_the_total": "forall_elem(key, JD, implies(key in self._jdd, RAW[key] == pprod(self._arr_fp, key, len(key)) and self._jdd[key] == RAW[key] / msum(RAW)))",
+                   "sums_to_one": "implies(exists_elem(key, JD, key in self._jdd), msum(self._jdd) == 1)",
+                   "frame": f"self._arr_fp == old(self._arr_fp) and {B0} == old({B0}) and self._motif_sizes == old(self._motif_sizes) and self._n_samples == old(self._n_samples)"},
+          raises={"ZeroDivisionError": dict(when="True", only=False)},
+          loops={0: dict(inv={"dom": "forall_elem(key, JD, (key in self._jdd) == (key in DICT0))", "val": "forall(j, 0, IT, self._jdd[KEYS[j]] == pprod(self._arr_fp, KEYS[j], len(KEYS[j])))",
+                              "box": f"forall_elem(key, JD, (key in DICT0) == in_product({KS_}, key))",
+                              "frame": f"self._arr_fp == old(self._arr_fp) and {B0} == old({B0}) and self._motif_sizes == old(self._motif_sizes) and self._n_samples == old(self._n_samples)"},
+                         exit_snap={"RAW": "self._jdd"})})
     # ---- marginal, sampling mode: dimension i is drawn by random.choices from its INCLUSIVE range kmin..kmax with its own marginal as weights, and the draws are
     #      transposed into one tuple per sample (that the frequencies then approach the product law is the assumed law of random.choices + the law of large numbers)
     LReal = ListT(REAL)
@@ -164,4 +191,4 @@ def build(reg):
         return ok, "load_joint_degree = resolve(type from params, same params); loader.create_jdd(); return loader" if ok else "entry point has another shape"
     reg.static_checks.append(("JointDegreeDistribution.load_joint_degree:static.resolves_then_rebuilds_once", main_entry))
     return ["JointDegree.convert_jds_to_jdd", "JointDegreeManual.create_jdd", "JointDegreeManual.__init__", "JointDegreeEmpirical.create_jdd", "JointDegreeEmpirical.__init__",
-            "JointDegreeFunction.create_jdd", "JointDegreeMarginal.evaluate_prob_of_joint_degree", "JointDegreeMarginal.generate_all_joint_degrees", "JointDegreeMarginal.draw_from_analytical_joint", "JointDegree.normalise_jdd"]
+            "JointDegreeFunction.create_jdd", "JointDegreeMarginal.evaluate_prob_of_joint_degree", "JointDegreeMarginal.generate_all_joint_degrees", "JointDegreeMarginal.create_jdd_directly", "JointDegreeMarginal.draw_from_analytical_joint", "JointDegree.normalise_jdd"]
